@@ -1076,6 +1076,43 @@ example :
     h.cfgOf 0 = some ⟨[.repair, .strict]⟩ ∧ h.cfgOf 1 = some ⟨[.repair, .strict]⟩ ∧
     h.cfgOf 2 = some ⟨defaultStrategies⟩ := by intro h; exact ⟨rfl, rfl, rfl⟩
 
+/-- RE-ASSIGNING the public attribute (`instance.strategies = other_list`, as opposed to editing the list in place)
+    rebinds that one instance: it now sees list object `k` (and will see later in-place edits of `k`), every list
+    object is as it was — so the instances that shared the old list still see it —, every other instance refers to
+    what it referred to, all counters are kept, and well-formedness is preserved. -/
+theorem c11_reassigning_strategies_rebinds_one_instance (h : Heap) (i k : Nat) (hi : i < h.insts.length)
+    (hk : k < h.cells.length) :
+    (h.assign i k).cells = h.cells ∧
+    (h.assign i k).cellOf i = some k ∧
+    (h.assign i k).cfgOf i = (h.cells[k]?).map Cfg.mk ∧
+    (∀ j, j ≠ i → (h.assign i k).cellOf j = h.cellOf j ∧ (h.assign i k).cfgOf j = h.cfgOf j) ∧
+    (∀ j, (h.assign i k).statsOf j = h.statsOf j) ∧
+    (h.WF → (h.assign i k).WF) := by
+  have hget : h.insts[i]? = some h.insts[i] := List.getElem?_eq_getElem hi
+  have hA : h.assign i k = ⟨h.cells, h.insts.set i (k, h.insts[i].2)⟩ := by
+    simp [Heap.assign, hget, hk]
+  rw [hA]
+  refine ⟨rfl, ?_, ?_, ?_, ?_, ?_⟩
+  · simp [Heap.cellOf, hi]
+  · simp [Heap.cfgOf, Heap.cellOf, hi]
+  · intro j hj
+    have hne : i ≠ j := fun e => hj e.symm
+    constructor
+    · simp [Heap.cellOf, List.getElem?_set_ne hne]
+    · simp [Heap.cfgOf, Heap.cellOf, List.getElem?_set_ne hne]
+  · intro j
+    by_cases hj : j = i
+    · subst hj; simp [Heap.statsOf, hi]
+    · have hne : i ≠ j := fun e => hj e.symm
+      simp [Heap.statsOf, List.getElem?_set_ne hne]
+  · intro hwf e he
+    rcases List.mem_or_eq_of_mem_set he with h1 | h1
+    · exact hwf e h1
+    · rw [h1]; exact hk
+
+example : (((((Heap.empty.newList [.repair, .strict]).construct (some 0)).construct (some 0)).newList [.strict]).assign 0 1).insts.map (·.1)
+    = [1, 0] := by decide
+
 /-! ## The library's own wrappers: a Chaperone handed to `ChaperoneLoop` stays the caller's validator
 
 `healH` is `ChaperoneLoop.heal` over an instance WITH callbacks (the co-chaperone registered for the loop's schema
